@@ -70,3 +70,28 @@ claim("C07",
       "exhaustive sweep of hostile datagram and token byte-string alphabets over prepared protocol states",
       "all 256 prefix bytes x 20 lengths x 3 fills, every genuine datagram kind with prefix / sequence replaced, truncated or extended, foreign-session and foreign-protocol packets, against server states {source unknown, pending, connected} and client states {requesting, responding, connected, disconnected}; oracle: no unwind, no result, hook snapshot identical, genuine follow-up accepted; connect-token byte strings (truncations, address count x type-byte products, timestamp/timeout extremes) through read -> NetcodeClient::new -> update",
       TB, "DESIGN.md §5 C07")
+
+claim("C05",
+      "explicit-state DFS over an attacker-driven handshake alphabet on the real NetcodeServer (cloned per state)",
+      "all sequences up to depth D of requests with 7 tokens (valid, expiring, foreign key, foreign protocol, wrong host) from 2 addresses, 9 single-field corruptions, responses echoing every issued challenge under every owned key from every address, garbage responses and clock moves around expiry; every ClientConnected is checked against a reference model of acceptable requests (token validity, expiry at that moment, host list, token-to-address binding), exact id / user data, and the echoed challenge's client id",
+      TB + "; challenge recognition by decrypting server replies with the token's keys", "DESIGN.md §5 C05")
+
+claim("C10",
+      "explicit-state DFS over a table-centred handshake/disconnect/time-out alphabet on the real NetcodeServer",
+      "all sequences up to depth D of requests, responses with any issued challenge, genuine disconnects and payloads, server disconnects, time-out ticks and limit changes for identities including two half-open sessions for one id and one address presenting several tokens, on servers built with 1 and 2 slots; table invariants (distinct ids, distinct addresses, bound, lookups, event matching, denials leave sessions untouched) in every state",
+      TB, "DESIGN.md §5 C10")
+
+claim("C17",
+      "exhaustive tamper sweep (every bit / truncation / extension / foreign key / foreign protocol) + bounded exhaustive schedule enumeration with a nonce monitor",
+      "(a) every single-bit flip, truncation, extension and re-sealing of one genuine datagram of every sealed kind in its accepting state is rejected without content or state change while the untampered datagram is accepted; (b) M2 over netcode sessions of 1-3 clients with losses, duplicates, delays, denials, disconnects, time-outs and fail-over: a monitor opens every emitted datagram with the session keys and finds no two different datagrams under one key with one sequence number",
+      TB + "; AEAD primitives trusted", "DESIGN.md §5 C17")
+
+claim("C18",
+      "bounded exhaustive schedule enumeration over the netcode world (real server and clients, harness-owned network, clock and attacker)",
+      "every schedule with <= d deviations (datagram drop/dup/delay both ways, attacker injections of forged and replayed datagrams) for handshakes at four tick lengths, two clients, address fail-over, silent client / silent server with time-outs 1/2/5 s and disabled, limit raised and lowered at run time, token expiry while half-open, coarse-tick keep-alive sessions; time-out iff no authentic datagram for longer than the token time-out (from the harness's own delivery log), half-open sessions gone after expiry, every undisturbed client with room connected after the fault-free tail",
+      TB, "DESIGN.md §5 C18")
+
+claim("C19",
+      "exhaustive sweep of a datagram alphabet over server states, each datagram repeated three times",
+      "valid / padded / truncated / corrupted / foreign / expired requests, valid / padded / truncated / cross-session responses and all 256 prefix bytes x parser-threshold lengths from an address without a completed handshake in six server states: at most one reply per call, to the source, strictly smaller than the datagram received, none for datagrams without a valid token or response",
+      TB, "DESIGN.md §5 C19")
